@@ -155,7 +155,7 @@ def ssl_with_bad_version(context, config):
 
 
 @test.takes_config("ssl_with_bad_version")
-@test.checks("FunctionDef")
+@test.checks("FunctionDef", "AsyncFunctionDef")
 @test.test_id("B503")
 def ssl_with_bad_defaults(context, config):
     """**B503: Test for SSL use with bad defaults specified**
